@@ -539,6 +539,11 @@ class Dynamic(Parameter):
         super().__set__(obj,val)
 
         dynamic = callable(val)
+        if dynamic and obj is not None and self.name in obj._param__private.refs:
+            # val was taken as a reference: the value in force is what
+            # it resolves to (nothing new while it is still pending)
+            val = obj._param__private.values.get(self.name)
+            dynamic = callable(val) and not hasattr(val, '_Dynamic_last')
         if dynamic: self._initialize_generator(val,obj)
         if obj is None: self._set_instantiate(dynamic)
 
